@@ -5,8 +5,8 @@ _STD_US = {'ll_strlen.0': 12, 'll_memcmp.0': 12, 'll_memcpy.0': 12, 'll_memcpy.1
            'll_memmove.2': 12, 'll_memmove.3': 12, 'll_memchr.0': 12}
 
 _DISJUNCT = '_ZNKSt7__cxx1112basic_stringIcSt11char_traitsIcESaIcEE11_M_disjunctEPKc'
-_QPARTS, _TPARTS = 8, 32
-_QCPARTS, _TCPARTS = 24, 32
+_QPARTS, _TPARTS = 4, 16
+_QCPARTS, _TCPARTS = 6, 16
 
 
 def _std(kind, part):
@@ -14,31 +14,34 @@ def _std(kind, part):
     kind: 'b' byte-wise enumeration, 'c' component-wise enumeration, 'n' non-empty check"""
     if kind == 'b':
         hid = 'c17_standardize_b%02d' % part
-        qd = {'PMAX': 3, 'NPARTS': _QPARTS, 'PART': part}
-        td = {'PMAX': 5, 'NPARTS': _TPARTS, 'PART': part}
+        qd = {'PMAX': 4, 'NPARTS': _QPARTS, 'PART': part}
+        td = {'PMAX': 6, 'NPARTS': _TPARTS, 'PART': part}
         dom = ('every path of length 1..PMAX over {/, ., letter} (letter = a at even, b at odd offsets) whose index is PART mod '
                'NPARTS')
-        qu, tu = 700, 8000
+        qu, tu = 2000, 20000
     elif kind == 'c':
         hid = 'c17_standardize_c%02d' % part
         qd = {'COMPONENTS': 3, 'NPARTS': _QCPARTS, 'PART': part}
         td = {'COMPONENTS': 4, 'NPARTS': _TCPARTS, 'PART': part}
         dom = ('every path made of an optional leading / and 1..COMPONENTS components from {empty, ., .., name} joined by / '
                '(name = a or b by position) whose index is PART mod NPARTS')
-        qu, tu = 700, 4000
+        qu, tu = 2000, 20000
     else:
         hid = 'c17_std_nonempty'
         qd = {'PMAX': 4, 'NPARTS': 1, 'PART': 0, 'CHECK_NONEMPTY': 1}
-        td = {'COMPONENTS': 3, 'NPARTS': 1, 'PART': 0, 'CHECK_NONEMPTY': 1}
+        td = {'COMPONENTS': 4, 'NPARTS': 1, 'PART': 0, 'CHECK_NONEMPTY': 1}
         dom = ('every path of the byte-wise (quick) / component-wise (thorough) enumeration that denotes the working directory '
                'itself (all others cannot be normalised to the empty path if the denotation harnesses hold)')
-        qu, tu = 700, 1000
+        qu, tu = 2000, 20000
     h = {'id': hid,
          'property': 'C17',
          'src': 'c17_standardize.cxx',
          'entry': 'harness_c17_standardize',
          'tus': ['src/dtoolutil/filename.cxx'],
          'tuflags': ['-fno-inline'], 'cut': [_DISJUNCT], 'models': ['strdisjunct.c'],
+         # --pointer-check makes symbolic execution quadratic in the number of dead locals: off for these long concrete
+         # runs (bounds/overflow checks and the base.c crash assertions stay on; counterexamples are replayed under ASan)
+         'cbmc_flags': ['--no-pointer-check'], 'object_bits': 16,
          'desc': 'Filename::standardize: ' + ('a non-empty path is not normalised to the empty path' if kind == 'n' else
                  'idempotence and denotation under a lexical (symlink-free) resolution model (residue class %d)' % part),
          'domain': dom + '; enumerated by a concrete loop unrolled inside the query (no symbolic input: symbolic bytes make the '
@@ -62,6 +65,7 @@ def _inc(kinds):
                     'src/dtoolutil/filename.cxx'],
             'skip_ctors': ['cppPreprocessor.cxx'], 'tuflags': ['-fno-inline'],
             'cut': ['_ZNK8Filename6existsEv', _DISJUNCT], 'models': ['strdisjunct.c'],
+            'cbmc_flags': ['--no-pointer-check'], 'object_bits': 16,
             'desc': 'CPPPreprocessor::find_include search order over a table-driven file system; search directories d1 d2 d3 given as '
                     + ' '.join('-S' if kinds & (1 << i) else '-I' for i in range(3))
                     + (' (no -S directory: <x> must not be found; x.h exists in the working directory)' if kinds == 0 else ''),
@@ -87,8 +91,3 @@ PROPERTY_INFO = {'C17': {'level': 'model_checking',
          'assumptions': ['lexical path model: no symbolic links; the parent of the root is the root']}}
 
 NOT_APPLICABLE = {}
-HARNESSES.append({'id': 'c17_tmp', 'property': 'C17', 'src': '/var/tmp/a_c09c17/t3.cxx', 'entry': 'harness_t3',
-  'tus': ['src/cppparser/cppPreprocessor.cxx', 'src/cppparser/cppFile.cxx', 'src/dtoolutil/filename.cxx'],
-  'skip_ctors': ['cppPreprocessor.cxx'], 'tuflags': ['-fno-inline'],
-  'cut': [_DISJUNCT], 'models': ['strdisjunct.c'], 'tiers': ('none',),
-  'bounds': {'quick': {'unwind': 12, 'unwindset': {'_ZN15CPPPreprocessor9InputFile3getEv.0': 1, '_ZN15CPPPreprocessor9InputFile4peekEv.0': 1}, 'cap': 300}}})
